@@ -189,7 +189,14 @@ impl G {
             }
             25 | 7 if d == 0 || self.chance(0.5) => {
                 let a = if self.chance(0.5) { v("action") } else { lit_ent("Action", *self.pick(&["view", "edit"])) };
-                bin("in", a, json!(["set", [lit_ent("Action", "all"), lit_ent("Action", *self.pick(&["view", "edit"]))]]))
+                let second = if d > 0 && self.chance(0.4) {
+                    // a computed action next to the literals
+                    let c = self.boolean(d - 1);
+                    json!(["if", c, lit_ent("Action", *self.pick(&["view", "edit"])), lit_ent("Action", *self.pick(&["edit", "all"]))])
+                } else {
+                    lit_ent("Action", *self.pick(&["view", "edit"]))
+                };
+                bin("in", a, json!(["set", [lit_ent("Action", *self.pick(&["all", "edit"])), second]]))
             }
             0 => lit_bool(self.chance(0.5)),
             1 => get(v("resource"), "pub"),
